@@ -13,7 +13,12 @@ META = {
              "refutes_stale_kept, refutes_destroy_leaves_index for the other two steps; classify_sound ties the decision to hydrex.go."),
     "note": ("Trusted: Lean kernel (propext, Classical.choice, Quot.sound); extract/c27.go; harness/c27.go + miscsdk.go. The catalog layer "
              "under Hydrex is modelled as a finite map per swamp (assumption, checked by the correspondence). Items with a nil pointer "
-             "(Go panic) and failures of the underlying catalog calls are not modelled."),
+             "(Go panic) are not modelled. LIMITS of the proved statement: names are ABSTRACT in the Lean model (index names, domains and keys are "
+             "numbers; that distinct strings give distinct swamps is the fact namesVerbatim + C20, and is exercised with case variants, non-ASCII, "
+             "180/200-byte, empty, '*' and '/'-containing names in the correspondence run); a FAILING catalog call in the middle of Save / Destroy "
+             "(Hydrex ignores or only logs every error: a save whose index request fails after the core data was written leaves the two out of step) "
+             "is outside the model and is only reached through invalid names, which Save / Destroy now refuse up front; close + reload of the swamps "
+             "is exercised (op idle: corpus case 1 and the thorough tier) but not part of the model, which treats a swamp as a map."),
     "design_ref": "§8 C27",
 }
 
